@@ -248,7 +248,7 @@ def _docs(which):
 
 
 def phases(tier):
-    n_doc, n_hs, n_hist = (10000, 2000, 6000) if tier == "quick" else (600000, 100000, 300000)
+    n_doc, n_hs, n_hist = (10000, 2000, 6000) if tier == "quick" else (200000, 30000, 100000)
     return [
         Phase("docs-ac", "gen", strategy=lambda: _docs("ac"), n=n_doc),
         Phase("docs-hs", "gen", strategy=lambda: _docs("hs"), n=n_hs),
